@@ -47,7 +47,13 @@ RULE = ('deterministic core: fixed workbooks (chain leaf/mid, range, CSE array, 
         'bounded ranges, whole-column spelling A:A of a complete column (model-compared, plain), and - oracle-only, '
         'plain AND iterative - SUM(B:B), SUM(r:r), INDEX(r:r,1,2), INDEX(B:B,r,1), range intersection, defined names '
         'of a range and of the failing cell, nested, with the cause of the failure an input (FAILNEG(A_r)) that is '
-        'fixed, broken again and fixed again. A case is non-trivial when an evaluate raises and a later evaluate follows.')
+        'fixed, broken again and fixed again. Entry points (oracle-only, plain and iterative): the FIRST operation that '
+        'meets the failing cell is evaluate(cell) / evaluate(range) / evaluate(list) / trim_graph / validate_calcs, the '
+        'failing cell reached directly, through a bounded range and through B:B; value_tree_str, to_file and '
+        'recalculate follow inside the retry history. Long histories: 130 (thorough 400) consecutive failing '
+        'evaluations of a dependant two levels up and 300 (700) of the failing cell on one model, chain / range / '
+        'whole-column, plain and iterative, then unrelated cells, repair, everything twice. A case is non-trivial when '
+        'an evaluate raises and a later evaluate follows.')
 ASSUMPTIONS = [
     'failures are injected through an unknown function (=expr+FOO()) or the plugin FAILAT(id,k,expr) which raises on '
     'its k-th call (k=0: always); library functions raising on particular arguments are the same path (except Exception)',
@@ -56,6 +62,8 @@ ASSUMPTIONS = [
     'iterative mode: workbooks whose values are reached in the first pass (acyclic, or cycles through the failing cell); '
     'the model runs one pass per evaluate; no ranges / CSE / k-th-call faults there',
     'set_value only on cells that are in the cell map',
+    'trim_graph / validate_calcs / value_tree_str / to_file / recalculate must finish or raise one of pycel\'s own '
+    'errors; after a trim_graph that succeeded the case is not checked further (the trimmed model is C08\'s subject)',
     'raw cases (whole-row / intersection / defined-name references, ranges in iterative mode) are not run through the '
     'model (computed references and iterative ranges are outside it): they are decided by the fresh-compiler oracle only',
     'RecursionError is raised by the plugin as an exception class, the interpreter limit itself is not provoked; the '
@@ -71,7 +79,8 @@ ASSUMPTIONS = [
 TRUSTED = ['modelled, not verified: openpyxl ArrayFormula storage, networkx, Python exception semantics (try/except/'
            'finally, with-block), the concrete formula evaluator of pycel (compared on the generated language)']
 REQUIRED_BUCKETS = ['plain:leaf', 'plain:mid', 'plain:range', 'plain:colref', 'plain:cse', 'plain:captured',
-                    'plain:raw', 'iter:chain', 'iter:cycle', 'iter:raw']
+                    'plain:raw', 'plain:entry', 'plain:long', 'iter:chain', 'iter:cycle', 'iter:raw', 'iter:entry',
+                    'iter:long']
 EXHAUSTIVE = False
 EXPLANATION = ('theorems: failure-aware engine, all workbooks / failure positions / histories; correspondence: real '
                'ExcelCompiler vs compiled model per operation; oracle: running compiler vs fresh compilers of the '
@@ -225,6 +234,50 @@ def raw_compiler(case, sets):
     return ExcelCompiler(excel=wb, plugins=PLUGIN, cycles=True if case['mode'] == 'iter' else None)
 
 
+def _enc_any(v):
+    if isinstance(v, (list, tuple)) and v and isinstance(v[0], (list, tuple)):
+        return '[' + ' / '.join(','.join(core.enc(x) for x in row) for row in v) + ']'
+    if isinstance(v, (list, tuple)):
+        return '[' + ','.join(core.enc(x) for x in v) + ']'
+    return core.enc(v)
+
+
+def _entry(comp, op):
+    """one public entry point other than evaluate(cell) / set_value; -> outcome token"""
+    import os
+    import tempfile
+    try:
+        if op[0] == 'ER':                                   # evaluate(range)
+            return _enc_any(comp.evaluate('S!' + op[1]))
+        if op[0] == 'EL':                                   # evaluate(list of addresses)
+            return _enc_any(comp.evaluate(['S!' + a for a in op[1]]))
+        if op[0] == 'T':                                    # trim_graph(inputs, outputs)
+            comp.trim_graph(['S!' + a for a in op[1]], ['S!' + a for a in op[2]])
+        elif op[0] == 'V':                                  # validate_calcs(outputs)
+            import contextlib
+            import io
+            with contextlib.redirect_stdout(io.StringIO()):
+                comp.validate_calcs(output_addrs=['S!' + a for a in op[1]])
+        elif op[0] == 'VT':                                 # value_tree_str(cell in the cell map)
+            list(comp.value_tree_str('S!' + op[1]))
+        elif op[0] == 'TF':                                 # to_file
+            d = tempfile.mkdtemp(prefix='c09-')
+            try:
+                comp.to_file(os.path.join(d, 'm'), file_types=('yml',))
+            finally:
+                import shutil
+                shutil.rmtree(d, ignore_errors=True)
+        elif op[0] == 'RC':                                 # recalculate()
+            comp.recalculate()
+        else:
+            return '!bad-op'
+        return 'done'
+    except RecursionError as exc:
+        return canon(exc)
+    except Exception as exc:   # noqa
+        return canon(exc)
+
+
 def raw_impl(case):
     comp = raw_compiler(case, {})
     out, snaps, sets = [], [], {}
@@ -232,6 +285,12 @@ def raw_impl(case):
         if op[0] == 'E':
             out.append(_eval(comp, 'S!' + op[1]))
             snaps.append((dict(sets), op[1]))
+        elif op[0] in ('ER', 'EL'):
+            out.append(_entry(comp, op))
+            snaps.append((dict(sets), op))
+        elif op[0] != 'S':
+            out.append(_entry(comp, op))
+            snaps.append(None)
         else:
             v = c01._py(op[2])
             try:
@@ -247,9 +306,10 @@ def raw_impl(case):
             ref.append(None)
             continue
         key = (json.dumps([case['mode'], case['raw'], case.get('names')], sort_keys=True),
-               json.dumps(sorted(sn[0].items())), sn[1])
+               json.dumps(sorted(sn[0].items())), json.dumps(sn[1]))
         if key not in _REF_MEMO:
-            _REF_MEMO[key] = _eval(raw_compiler(case, sn[0]), 'S!' + sn[1])
+            fresh = raw_compiler(case, sn[0])
+            _REF_MEMO[key] = _eval(fresh, 'S!' + sn[1]) if isinstance(sn[1], str) else _entry(fresh, sn[1])
         ref.append(_REF_MEMO[key])
     _REF[json.dumps(case, sort_keys=True)] = ref
     return ';'.join(out)
@@ -411,7 +471,15 @@ def _violations(case, impl_out):
             if o != 'ok':
                 yield k, f'op #{k} set_value({op[1] if raw else nodes[op[1]][1]}) raised {o}'
             continue
-        addr = op[1] if raw else nodes[op[1]][1]
+        if raw and op[0] not in ('E', 'ER', 'EL'):
+            # trim_graph / validate_calcs / value_tree_str / to_file / recalculate: they either finish or raise one
+            # of pycel's own errors; never a bare internal exception
+            if not (o == 'done' or _own(o)):
+                yield k, f'op #{k} {op[0]}({op[1:]}) escaped as {o}'
+            if op[0] == 'T' and o == 'done':
+                return                      # the model was trimmed: what follows is C08's subject
+            continue
+        addr = str(op[1]) if raw else nodes[op[1]][1]
         if o.startswith('!exc:bare'):
             yield k, f'op #{k} evaluate({addr}) escaped as a bare internal exception {o}'
         elif _own(o):
@@ -644,6 +712,74 @@ def raw_cases(tier):
                            'ops': ops, 'pos': f'raw/{fname}/{ckind}'}
 
 
+def entry_cases(tier):
+    """the FIRST operation that meets the failing cell is evaluate(cell) / evaluate(range) / evaluate(list) /
+    trim_graph / validate_calcs; then retries, dependants, unrelated cell, value_tree_str, to_file, recalculate, the
+    repair, two more rounds and validate_calcs again; the failing cell is reached directly, through a bounded range and
+    through a whole-column reference; plain and iterative."""
+    causes = [('neg', lambda r: f'=FAILNEG(A{r})', -3), ('unk', lambda r: f'=A{r}+FOOBAR(A{r})', 3),
+              ('raise', lambda r: f'=FAILAT({r},0,"KeyError","noargs",A{r})', 3)]
+    forms = [('direct', lambda r: f'=B{r}+B1'), ('bounded', lambda r: '=SUM(B1:B3)'), ('col', lambda r: '=SUM(B:B)')]
+    firsts = [('cell', lambda: ['E', 'H5']), ('range', lambda: ['ER', 'B1:B3']), ('list', lambda: ['EL', ['G5', 'F5', 'H5']]),
+              ('trim', lambda: ['T', ['A1'], ['H5']]), ('validate', lambda: ['V', ['H5', 'G5']])]
+    k = 0
+    for mode in ('plain', 'iter'):
+        for r in (1, 2, 3):
+            for ckind, cause, a_val in causes:
+                for fname, form in forms:
+                    for ename, first in firsts:
+                        k += 1
+                        if tier == 'quick' and k % 3 != (r % 3):
+                            continue
+                        raw = {'A1': 1, 'A2': 2, 'A3': 3, 'B1': '=A1*10', 'B2': '=A2*10', 'B3': '=A3*10',
+                               'F5': form(r), 'H5': '=F5+1', 'G5': '=A1+A2'}
+                        raw[f'A{r}'] = a_val
+                        raw[f'B{r}'] = cause(r)
+                        fail = f'B{r}'
+                        ops = [first()] + [['E', 'F5']] * 3 + [['E', 'H5']] * 3 + [['E', fail]] * 3
+                        ops += [['E', 'G5'], ['VT', 'H5'], ['TF'], ['RC'], ['E', 'F5'], ['ER', 'B1:B3'],
+                                ['EL', ['G5', 'H5']], ['V', ['H5']], ['E', 'H5']]
+                        if ckind == 'neg':
+                            ops += [['S', f'A{r}', 'n:4/1']]
+                        elif mode == 'plain':
+                            ops += [['S', fail, 'n:4/1']]
+                        ops += [['E', c] for c in ['F5', 'H5', fail, 'G5']] * 2 + [['ER', 'B1:B3'], ['V', ['H5', 'G5']]]
+                        if ckind == 'neg':
+                            ops += [['RC'], ['TF']]
+                        ops += [['E', 'H5'], ['E', 'G5']]
+                        yield {'mode': mode, 'raw': raw, 'names': {}, 'ops': ops, 'pos': f'entry/{ename}/{fname}/{ckind}'}
+
+
+def long_cases(tier):
+    """several hundred consecutive failing evaluations on one model (the failing cell, a dependant two levels up, a
+    reader through a range), then the unrelated cells, the repair and everything twice: state that leaks a little per
+    failed evaluation only shows at scale"""
+    n_fail, n_top = (300, 130) if tier == 'quick' else (700, 400)
+    chain, rng_wb = FIXED['chain'], FIXED['range']
+    plan = [('plain', chain, 2, 4, 'unk'), ('plain', chain, 2, 4, 'raise:KeyError'), ('plain', rng_wb, 1, 5, 'unk'),
+            ('iter', chain, 2, 4, 'raise:ValueError')]
+    if tier != 'quick':
+        plan += [('plain', rng_wb, 1, 5, 'raise:RecursionError'), ('iter', chain, 2, 4, 'unk'),
+                 ('plain', FIXED['colref'], 1, 5, 'raise:AssertionError'), ('plain', FIXED['cse'], 3, 6, 'unk')]
+    for mode, nodes, f, top, m in plan:
+        attrs = _blank(nodes)
+        attrs[f][0] = m
+        cells = [i for i, n in enumerate(nodes) if n[0] != 'R' and not (n[0] == 'F' and n[2] == 'cse')]
+        ops = [['E', top]] * n_top + ([['E', f]] * n_fail if f in cells else []) + [['E', top]] * 3
+        ops += [['E', i] for i in cells]
+        if f in cells and not _special(nodes, f):
+            ops += [['S', f, 'n:5/1']]
+        ops += [['E', i] for i in cells] * 2
+        yield {'mode': mode, 'nodes': nodes, 'attrs': attrs, 'ops': ops, 'pos': 'long'}
+    # through a whole-column reference, iterative and plain (oracle-only)
+    for mode in ('iter', 'plain'):
+        raw = {'A1': 1, 'A2': -3, 'A3': 3, 'B1': '=A1*10', 'B2': '=FAILNEG(A2)', 'B3': '=A3*10',
+               'F5': '=SUM(B:B)', 'H5': '=F5+1', 'I5': '=H5+1', 'G5': '=A1+A3'}
+        ops = [['E', 'I5']] * n_top + [['E', 'B2']] * n_fail + [['E', 'F5']] * 3 + [['E', 'G5'], ['S', 'A2', 'n:2/1']]
+        ops += [['E', c] for c in ('I5', 'F5', 'B2', 'G5')] * 2
+        yield {'mode': mode, 'raw': raw, 'names': {}, 'ops': ops, 'pos': 'long'}
+
+
 VALUES = [0, 1, 2, 5, -3, 'a', None, True]
 
 
@@ -773,6 +909,8 @@ def gen_case(rng, mode):
 def cases(tier, rng):
     yield from fixed_cases()
     yield from raw_cases(tier)
+    yield from entry_cases(tier)
+    yield from long_cases(tier)
     n = 250 if tier == 'quick' else 6000
     k = 0
     while k < n:
